@@ -345,6 +345,9 @@ pub enum Form {
     PtrFar(usize),
     /// ... encoded at offset 12 as the tail of a longer name (pointer into the middle)
     PtrMid(usize),
+    /// labels[..j] + pointer to (labels[j..k] + pointer to labels[k..] at offset 12), j = k/2:
+    /// a pointer whose target ends in another pointer
+    PtrChain(usize),
 }
 
 pub fn forms(nlabels: usize) -> Vec<Form> {
@@ -353,6 +356,9 @@ pub fn forms(nlabels: usize) -> Vec<Form> {
         v.push(Form::PtrNear(k));
         v.push(Form::PtrFar(k));
         v.push(Form::PtrMid(k));
+        if k >= 1 {
+            v.push(Form::PtrChain(k));
+        }
     }
     v
 }
@@ -363,6 +369,7 @@ fn form_name(f: Form) -> String {
         Form::PtrNear(k) => format!("ptr-near-{k}"),
         Form::PtrFar(k) => format!("ptr-far-{k}"),
         Form::PtrMid(k) => format!("ptr-mid-{k}"),
+        Form::PtrChain(k) => format!("ptr-chain-{k}"),
     }
 }
 
@@ -372,6 +379,7 @@ fn form_class(f: Form) -> &'static str {
         Form::PtrNear(_) => "ptr-near",
         Form::PtrFar(_) => "ptr-far",
         Form::PtrMid(_) => "ptr-mid",
+        Form::PtrChain(_) => "ptr-chain",
     }
 }
 
@@ -402,6 +410,23 @@ pub fn run_refbytes_case(labels: &Labels, h: &Name, offset: usize, f: Form, buf:
             buf.extend_from_slice(&target);
             lit(&labels[..k], &mut name_bytes);
             name_bytes.extend_from_slice(&[0xc0 | (p >> 8) as u8, p as u8]);
+        }
+        Form::PtrChain(k) => {
+            let j = k / 2;
+            let tail = to_wire(&labels[k..].to_vec());
+            let mut mid: Vec<u8> = vec![];
+            lit(&labels[j..k], &mut mid);
+            mid.extend_from_slice(&[0xc0, 12]);
+            let midpos = 12 + tail.len();
+            if offset < midpos + mid.len() {
+                return;
+            }
+            buf.resize(12, 0);
+            buf.extend_from_slice(&tail);
+            buf.extend_from_slice(&mid);
+            buf.resize(offset, 0);
+            lit(&labels[..j], &mut name_bytes);
+            name_bytes.extend_from_slice(&[0xc0 | (midpos >> 8) as u8, midpos as u8]);
         }
         Form::PtrFar(k) | Form::PtrMid(k) => {
             let mut target = vec![];
